@@ -79,11 +79,16 @@ Fixpoint gen_chunks (off : nat) (l : list (N * N)) : journal :=
    the chunk layout (id, records) of the partition before and after the flush, and the position the reader went on from
    (where the first event lies that the page delivered from behind the data it had seen; the returned position when it
    delivered none). The model's eof_step, started at the end of the last chunk of `before`, answers with that position *)
-Definition eofwin := (list (N * N) * list (N * N) * (N * N))%type.
+Definition eofwin := (list (N * N) * list (N * N) * (N * N) * bool)%type.
 Definition eof_ok (w : eofwin) : bool :=
-  let '(before, after, pos) := w in
+  let '(before, after, pos, at_count) := w in
   match last (map Some before) None with
-  | Some (cid, n) => pos_eqb (jit_pos (fst (eof_step repo_reresolves_eof repo_restores_eof (gen_chunks 0 after) (mkJit cid n (Some n) false)))) pos
+  | Some (cid, n) =>
+      let it := mkJit cid n (Some n) false in
+      if at_count
+      then (* the flush came right after the selector had read the count for its status: its "nothing left" answer *)
+           pos_eqb (jit_pos (fst (end_answer repo_rereads_count (gen_chunks 0 before) (gen_chunks 0 after) (advance it)))) pos
+      else pos_eqb (jit_pos (fst (eof_step repo_reresolves_eof repo_restores_eof (gen_chunks 0 after) it))) pos
   | None => false
   end.
 
